@@ -564,9 +564,6 @@ package service
 //@   params addr
 //@   pure
 //@   requires addr != nil
-//@   trace[C03,formatted-by-the-standard-address-formatter] holds evcount("net.(*UDPAddr).String") + evcount("net.Addr.String") == 1
-//@   trace[C03,zone-dropped-address-and-port-kept] each net.(*UDPAddr).String satisfies $arg0.Zone == "" && sameslice($arg0.IP, as(addr, "*net.UDPAddr").IP) && $arg0.Port == as(addr, "*net.UDPAddr").Port
-//@   trace[C03,other-addresses-formatted-as-they-are] each net.Addr.String satisfies $recv == addr
 
 // onWrite: the association's deadline never moves earlier, is at least now + 17 s after a DNS
 // datagram and now + the configured timeout after any other, and the tracked value changes only
@@ -765,6 +762,9 @@ package service
 //@   params addr
 //@   pure
 //@   requires addr != nil
+//@   trace[C03,formatted-by-the-standard-address-formatter] holds evcount("net.(*UDPAddr).String") + evcount("net.Addr.String") == 1
+//@   trace[C03,zone-dropped-address-and-port-kept] each net.(*UDPAddr).String satisfies $arg0.Zone == "" && sameslice($arg0.IP, as(addr, "*net.UDPAddr").IP) && $arg0.Port == as(addr, "*net.UDPAddr").Port
+//@   trace[C03,other-addresses-formatted-as-they-are] each net.Addr.String satisfies $recv == addr
 
 //@ func timedCopy$1
 //@   props C03 C04 C16 C18
